@@ -41,8 +41,8 @@ out.append('For every property fresh sub-agents, given only the property text an
  '`/repo` HEAD with the patch applied. Where a change was missed the check was strengthened (generator,\n'
  'fault mode or history family — never by special-casing the seeded input) until it was reported; those rows\n'
  'say so. Generated from `seeded/*/meta.json`.\n\n'
- 'Five rounds of three changes per property were run, and a sixth of two changes for eight properties (C02, C06,\n'
- 'C12, C13, C16, C17, C19, C20; seeds 16 and 17; 4 of its 16 missed at first, one judged not a violation) (each later round was told the earlier ideas and had to\n'
+ 'Five rounds of three changes per property were run, and a sixth of two changes for twelve properties (C02, C05, C06,\n'
+ 'C11 to C17, C19, C20; seeds 16 and 17; 7 of its 24 missed at first, one more judged not a violation) (each later round was told the earlier ideas and had to\n'
  'use a different mechanism). The share missed at first did not fall from round to round (about a third in\n'
  'round 1, about half to two thirds in rounds 2 to 5): each round found input shapes, fault modes or histories the\n'
  'workloads did not yet contain, which is the honest measure of what a finite workload reaches. After the last\n'
